@@ -43,7 +43,7 @@ def _plane(rng, shape):
 def generate(rng, tier, index):
     T = int(rng.integers(3, 7))
     faces = specgen.rand_faces(rng, kinds_pair=("periodic",), kinds_single=("pec", "pmc", "none"), pml=(2, 2))
-    shape = specgen.rand_shape(rng, 4, 8)
+    shape = specgen.fit_shape(specgen.rand_shape(rng, 4, 8), faces)
     spec = {"shape": shape, "grid": specgen.rand_grid(rng, shape, 0.5), "steps": T, "faces": faces, "key": int(rng.integers(0, 2**31))}
     spec["materials"] = {"mode": "random", "seed": int(rng.integers(0, 2**31)), "eps_tier": "iso", "mu_tier": specgen.choice(rng, [None, "iso"])}
     if spec["materials"]["mu_tier"] is None:
